@@ -157,7 +157,15 @@ NsEvs(items, nspath, top, ignore, ser) ==
                      callargs |-> ArgNames(d.args), args |-> PyArgs(d.args)] >>
             ELSE <<>>])
 
-Expected(inst, opts) == NsEvs(inst, <<>>, opts.top, opts.ignore, opts.ser)
+\* a namespace may be opened several times; its submodule is created once, by the first block
+RECURSIVE DedupSubmodules(_, _)
+DedupSubmodules(evs, seen) ==
+  IF evs = <<>> THEN <<>>
+  ELSE LET e == Head(evs) IN
+       IF e.ev = "submodule" THEN (IF e.var \in seen THEN DedupSubmodules(Tail(evs), seen)
+                                   ELSE <<e>> \o DedupSubmodules(Tail(evs), seen \cup {e.var}))
+       ELSE <<e>> \o DedupSubmodules(Tail(evs), seen)
+Expected(inst, opts) == DedupSubmodules(NsEvs(inst, <<>>, opts.top, opts.ignore, opts.ser), {})
 
 RECURSIVE Includes(_, _, _)
 Includes(items, nspath, top) ==
@@ -170,7 +178,7 @@ Includes(items, nspath, top) ==
 ---------------------------------------------------------------------------
 \* the registration machine.  state = [created : set of module variables, vars : set of C++ variables declared,
 \*                                      pending : Seq(expected events), err : STRING]
-InitState(inst, opts) == [created |-> {"m_"}, vars |-> {"m_"}, pending |-> Expected(inst, opts), err |-> ""]
+InitState(inst, opts) == [created |-> {"m_"}, vars |-> {"m_"}, pending |-> Expected(inst, opts), errs |-> <<>>]
 
 \* what of an observed event is compared (the scanner adds raw text fields that are not part of the binding)
 Canon(e) ==
@@ -183,30 +191,72 @@ Canon(e) ==
 
 Placement(e) == CASE e.ev \in {"class", "enum", "attr", "func"} -> e.module [] OTHER -> ""
 
+\* C03 speaks about WHICH bindings exist, under which name and where; C04 about what each binding forwards to.
+\* Two events denote the same binding (identity) if they agree on the fields below; everything else is forwarding.
+SameBinding(p, b) ==
+  /\ p.ev = b.ev
+  /\ CASE b.ev = "class"    -> p.cpp = b.cpp
+       [] b.ev = "init"     -> p.cls = b.cls /\ Len(p.args) = Len(b.args)
+       [] b.ev = "def"      -> p.cls = b.cls /\ p.pyname = b.pyname /\ Len(p.args) = Len(b.args)
+       [] b.ev = "pickle"   -> p.cls = b.cls
+       [] b.ev = "prop"     -> p.cls = b.cls /\ p.name = b.name
+       [] b.ev = "operator" -> p.cls = b.cls /\ p.form = b.form
+       [] b.ev = "enum"     -> p.cpp = b.cpp
+       [] b.ev = "attr"     -> p.module = b.module /\ p.name = b.name
+       [] b.ev = "func"     -> p.module = b.module /\ p.pyname = b.pyname /\ Len(p.args) = Len(b.args)
+       [] OTHER             -> FALSE
+\* the first field in which two events of the same binding differ, tagged with the property it belongs to
+Names(vs) == [i \in 1..Len(vs) |-> vs[i].name]
+DiffField(p, b) ==
+  CASE b.ev = "class" -> IF p.module # b.module THEN "C03:class-in-wrong-module"
+                         ELSE IF p.name # b.name THEN "C03:class-under-wrong-name"
+                         ELSE IF p.targs # b.targs THEN "C04:class-base-or-holder"
+                         ELSE "C09:class-instance-variable"
+    [] b.ev = "init"  -> IF p.types # b.types THEN "C04:constructor-types" ELSE "C04:constructor-keyword-arguments"
+    [] b.ev \in {"def", "func"} ->
+         IF b.ev = "def" /\ p.static # b.static THEN "C04:static-vs-instance"
+         ELSE IF p.params # b.params THEN "C04:lambda-parameters"
+         ELSE IF p.ret # b.ret THEN "C04:return-presence"
+         ELSE IF p.callee # b.callee THEN "C04:callee"
+         ELSE IF p.callargs # b.callargs THEN "C04:call-arguments"
+         ELSE IF p.args # b.args THEN "C04:keyword-arguments-or-defaults"
+         ELSE "C04:lambda-body"
+    [] b.ev = "pickle" -> "C04:pickle-text"
+    [] b.ev = "prop"  -> IF p.readonly # b.readonly THEN "C04:property-writability" ELSE "C04:property-target"
+    [] b.ev = "operator" -> "C03:operator"
+    [] b.ev = "enum"  -> IF p.module # b.module THEN "C03:enum-in-wrong-module"
+                         ELSE IF p.name # b.name THEN "C03:enum-under-wrong-name"
+                         ELSE IF Names(p.values) # Names(b.values) THEN "C03:enumerators"
+                         ELSE "C04:enumerator-values"
+    [] b.ev = "attr"  -> "C04:variable-value"
+    [] OTHER -> "C03:other"
+
+Err(s, e) == [s EXCEPT !.errs = Append(@, e)]
+
 Step(s, e) ==
-  IF s.err # "" THEN s
-  ELSE IF e.ev = "submodule"
-  THEN IF e.var \in s.vars THEN [s EXCEPT !.err = "submodule-variable-defined-twice"]
-       ELSE IF e.parent \notin s.created THEN [s EXCEPT !.err = "submodule-parent-not-created"]
-       ELSE IF ~InSeq(e, s.pending) THEN [s EXCEPT !.err = "unexpected-submodule"]
+  IF e.ev = "submodule"
+  THEN IF e.var \in s.vars THEN Err(s, "C03:submodule-variable-defined-twice")
+       ELSE IF e.parent \notin s.created THEN Err(s, "C03:submodule-parent-not-created")
+       ELSE IF ~InSeq(e, s.pending) THEN Err([s EXCEPT !.created = @ \cup {e.var}, !.vars = @ \cup {e.var}],
+                                             "C03:unexpected-submodule")
        ELSE [s EXCEPT !.created = @ \cup {e.var}, !.vars = @ \cup {e.var}, !.pending = RemoveFirst(@, e)]
-  ELSE LET b == Canon(e) IN
-       IF ~InSeq(b, s.pending)
-       THEN [s EXCEPT !.err = "unexpected-or-wrong-binding:" \o e.ev]
-       ELSE IF Placement(b) # "" /\ Placement(b) \notin s.created
-       THEN [s EXCEPT !.err = "placed-in-module-not-yet-created"]
-       ELSE IF b.ev = "class" /\ b.instvar # "" /\ b.instvar \in s.vars
-       THEN [s EXCEPT !.err = "class-instance-variable-defined-twice"]
-       ELSE [s EXCEPT !.pending = RemoveFirst(@, b),
-                      !.created = IF b.ev = "class" /\ b.instvar # "" THEN @ \cup {b.instvar} ELSE @,
-                      !.vars = IF b.ev = "class" /\ b.instvar # "" THEN @ \cup {b.instvar} ELSE @]
+  ELSE LET b == Canon(e)
+           s1 == IF Placement(b) # "" /\ Placement(b) \notin s.created
+                 THEN Err(s, "C03:placed-in-module-not-yet-created") ELSE s
+           s2 == IF b.ev = "class" /\ b.instvar # "" /\ b.instvar \in s1.vars
+                 THEN Err(s1, "C09:class-instance-variable-defined-twice") ELSE s1
+           s3 == IF b.ev = "class" /\ b.instvar # ""
+                 THEN [s2 EXCEPT !.created = @ \cup {b.instvar}, !.vars = @ \cup {b.instvar}] ELSE s2
+       IN IF InSeq(b, s3.pending) THEN [s3 EXCEPT !.pending = RemoveFirst(@, b)]
+          ELSE LET cands == SelectSeq(s3.pending, LAMBDA p : SameBinding(p, b)) IN
+               IF cands = <<>> THEN Err(s3, "C03:unexpected-binding:" \o b.ev)
+               ELSE [Err(s3, DiffField(cands[1], b)) EXCEPT !.pending = RemoveFirst(@, cands[1])]
 
 RECURSIVE Run(_, _)
 Run(s, evs) == IF evs = <<>> THEN s ELSE Run(Step(s, Head(evs)), Tail(evs))
 
+\* all clauses violated by a trace (empty = accepted)
 Verdict(inst, opts, evs) ==
   LET s == Run(InitState(inst, opts), evs) IN
-  IF s.err # "" THEN s.err
-  ELSE IF s.pending # <<>> THEN "missing-binding:" \o s.pending[1].ev
-  ELSE ""
+  s.errs \o [i \in 1..Len(s.pending) |-> "C03:missing-binding:" \o s.pending[i].ev]
 =============================================================================
